@@ -59,7 +59,7 @@ func scalarReflectFromAST(schema *schema_j5pb.Field, value ASTValue) (protorefle
 			return protoreflect.ValueOfInt32(int32(val)), nil
 
 		case schema_j5pb.IntegerField_FORMAT_INT64:
-			val, err := value.AsInt(32)
+			val, err := value.AsInt(64)
 			if err != nil {
 				return pv, err
 			}
